@@ -13,15 +13,15 @@ import (
 // Model is the emission model (engine E1): the sink, the functions that lead to it
 // (the spine), the call sites along the spine, and the roots (public entry points).
 type Model struct {
-	P        *Prog
-	SinkFns  map[*ssa.Function]bool      // functions containing the Write on the selected destination
-	SinkCall map[*ssa.Function][]*ssa.Call // the invoke Write instructions
-	Spine    map[*ssa.Function]bool      // functions from which a sink function is statically reachable (slog package only)
-	Sites    map[*ssa.Function][]ssa.CallInstruction // spine call sites per spine function
-	Callers  map[*ssa.Function][]ssa.CallInstruction // in-package static call sites of each function
-	Gates    map[*ssa.Function]bool      // Entry.Enabled / Entry.EnabledContext
-	LevelT   *types.Named
-	LevelByVal map[int64]string
+	P           *Prog
+	SinkFns     map[*ssa.Function]bool                  // functions containing the Write on the selected destination
+	SinkCall    map[*ssa.Function][]*ssa.Call           // the invoke Write instructions
+	Spine       map[*ssa.Function]bool                  // functions from which a sink function is statically reachable (slog package only)
+	Sites       map[*ssa.Function][]ssa.CallInstruction // spine call sites per spine function
+	Callers     map[*ssa.Function][]ssa.CallInstruction // in-package static call sites of each function
+	Gates       map[*ssa.Function]bool                  // Entry.Enabled / Entry.EnabledContext
+	LevelT      *types.Named
+	LevelByVal  map[int64]string
 	LevelByName map[string]int64
 }
 
@@ -100,7 +100,7 @@ func BuildModel(p *Prog) (*Model, error) {
 				continue
 			}
 			cc := call.Common()
-			if cc.IsInvoke() && cc.Method.Name() == "Write" && !isWriterImplMethod(fn) {
+			if cc.IsInvoke() && nm(cc.Method) == "Write" && !isWriterImplMethod(fn) {
 				if n := namedOf(cc.Value.Type()); n != nil && n.Obj() == lw.Obj() {
 					m.SinkFns[fn] = true
 					m.SinkCall[fn] = append(m.SinkCall[fn], call)
@@ -154,19 +154,19 @@ func BuildModel(p *Prog) (*Model, error) {
 func exprKey(v ssa.Value) string {
 	switch x := v.(type) {
 	case *ssa.Parameter:
-		return "p:" + x.Name()
+		return "p:" + nm(x)
 	case *ssa.FreeVar:
-		return "fv:" + x.Name()
+		return "fv:" + nm(x)
 	case *ssa.Global:
-		return "g:" + x.Name()
+		return "g:" + nm(x)
 	case *ssa.Const:
 		return "c:" + x.String()
 	case *ssa.FieldAddr:
 		st := structOf(x.X.Type())
-		return exprKey(x.X) + ".&" + st.Field(x.Field).Name()
+		return exprKey(x.X) + ".&" + nm(st.Field(x.Field))
 	case *ssa.Field:
 		st := structOf(x.X.Type())
-		return exprKey(x.X) + "." + st.Field(x.Field).Name()
+		return exprKey(x.X) + "." + nm(st.Field(x.Field))
 	case *ssa.UnOp:
 		if x.Op == token.MUL {
 			return "*(" + exprKey(x.X) + ")"
@@ -182,7 +182,7 @@ func exprKey(v ssa.Value) string {
 	case *ssa.ChangeInterface:
 		return exprKey(x.X)
 	}
-	return fmt.Sprintf("%s@%p", v.Name(), v)
+	return fmt.Sprintf("%s@%p", nm(v), v)
 }
 
 // loggerKey canonicalises a logger receiver: an embedded *Entry of a *logimp counts as the logimp itself.
@@ -238,7 +238,7 @@ func (m *Model) gateCallOf(cond ssa.Value) (call *ssa.Call, recv, lvl ssa.Value,
 		}
 	}
 	// through the Logger interface: l.Enabled(lvl) / l.EnabledContext(ctx, lvl)
-	if cc := call.Common(); cc.IsInvoke() && (cc.Method.Name() == "Enabled" || cc.Method.Name() == "EnabledContext") &&
+	if cc := call.Common(); cc.IsInvoke() && (nm(cc.Method) == "Enabled" || nm(cc.Method) == "EnabledContext") &&
 		cc.Method.Pkg() == m.P.Slog.Pkg && len(cc.Args) >= 1 && m.isLevel(cc.Args[len(cc.Args)-1].Type()) {
 		return call, cc.Value, cc.Args[len(cc.Args)-1], true
 	}
@@ -258,10 +258,10 @@ func (m *Model) thresholdOwner(v ssa.Value) ssa.Value {
 		return base
 	}
 	if c, ok := v.(*ssa.Call); ok {
-		if cal := calleeOf(c); cal != nil && cal.Name() == "Level" && len(c.Common().Args) == 1 {
+		if cal := calleeOf(c); cal != nil && nm(cal) == "Level" && len(c.Common().Args) == 1 {
 			return c.Common().Args[0]
 		}
-		if c.Common().IsInvoke() && c.Common().Method.Name() == "Level" {
+		if c.Common().IsInvoke() && nm(c.Common().Method) == "Level" {
 			return c.Common().Value
 		}
 	}
@@ -350,7 +350,7 @@ func (m *Model) Roots() []*ssa.Function {
 		if fn.Parent() != nil {
 			continue // closures are entered through their parents
 		}
-		exported := token.IsExported(fn.Name())
+		exported := token.IsExported(nm(fn))
 		if exported || len(m.Callers[fn]) == 0 {
 			out = append(out, fn)
 		}
@@ -429,14 +429,14 @@ func (m *Model) valDesc(v ssa.Value) string {
 		return c.Value.ExactString()
 	}
 	if base, _, f, ok := fieldLoad(v); ok {
-		return typeName(base.Type()) + "." + f.Name()
+		return typeName(base.Type()) + "." + nm(f)
 	}
 	if g, ok := globalLoad(v); ok {
-		return "global " + g.Name()
+		return "global " + nm(g)
 	}
 	switch x := v.(type) {
 	case *ssa.Parameter:
-		return "param " + x.Name()
+		return "param " + nm(x)
 	case *ssa.Call:
 		if isBuiltinCall(x, "len") {
 			return "len(" + m.valDesc(x.Common().Args[0]) + ")"
@@ -456,5 +456,5 @@ func (m *Model) valDesc(v ssa.Value) string {
 	case *ssa.Phi:
 		return "phi"
 	}
-	return v.Name()
+	return nm(v)
 }
